@@ -3207,8 +3207,12 @@ parsec_insert_dtd_task(parsec_task_t *__this_task)
                  * cases the task we are forming will never be enabled if it has an order of
                  * operation on the data as following: R, .... R, W. This takes care of those
                  * cases.
+                 * The last user recorded in the tile is not alive: it can be a completed task whose
+                 * memory has been recycled for this_task (same task class mempool). It is this very
+                 * task only if one of its previous flows really uses this tile.
                  */
-                if( last_user.task == this_task ) {
+                if( last_user.task == this_task && last_user.flow_index < flow_index &&
+                    (FLOW_OF(this_task, last_user.flow_index))->tile == tile ) {
                     if((last_user.op_type & PARSEC_GET_OP_TYPE) == PARSEC_INPUT ) {
                         if( this_task->super.data[last_user.flow_index].data_in != NULL) {
 /* #if defined(PARSEC_HAVE_DEV_CUDA_SUPPORT) */
